@@ -16,3 +16,6 @@ pub proof fn lemma_rcvec_clone<T>(v: Seq<std::rc::Rc<T>>, r: Seq<std::rc::Rc<T>>
     broadcast use axiom_rc_cloned;
     assert(r =~= v);
 }
+pub assume_specification<T, A> [<std::rc::Rc<T, A> as std::convert::AsRef<T>>::as_ref] (r: &std::rc::Rc<T, A>) -> (o: &T)
+    where A: std::alloc::Allocator, T: std::marker::MetaSized + ?Sized,
+    ensures o == &**r;
